@@ -5,6 +5,7 @@ import Driver.Sut.Orswot
 import Driver.Sut.MVReg
 import Driver.Sut.Ident
 import Driver.Sut.GList
+import Driver.Sut.Map
 /-! Line-protocol driver: reads a command script on stdin, prints the model's canonical observation
 (and, after ` | `, the value of the specification functions) for every command. -/
 open Driver
@@ -17,6 +18,9 @@ def newCase (ty : String) (n : Nat) : Option Machine :=
   | "mvreg_raw" => some (Machine.mk' (mvregOps false) n)
   | "glist" => some (Machine.mk' glistOps n)
   | "list" => some (Machine.mk' listOps n)
+  | "map_mvreg" => some (Machine.mk' mapMVOps n)
+  | "map_orswot" => some (Machine.mk' mapOROps n)
+  | "map_map_mvreg" => some (Machine.mk' mapMapMVOps n)
   | "gcounter" => some (Machine.mk' gcounterOps n)
   | "pncounter" => some (Machine.mk' pncounterOps n)
   | "gset" => some (Machine.mk' gsetOps n)
